@@ -68,7 +68,7 @@ func TestC06(t *testing.T) {
 		for k := 0; ; k++ {
 			c = GenCase(p, fmt.Sprintf("c06-%d", k), ci, "")
 			// stay out of the C02 known-finding classes so that every mismatch is attributable to the pause
-			if !samePathTwice(c) && !responderLacksRoot(c) && !c.Exp.AllLocal && !c.Exp.RootMissing && c.Exp.Err == nil && !overshootCandidate(c) {
+			if !samePathTwice(c) && !responderLacksRoot(c) && !c.Exp.AllLocal && !c.Exp.RootMissing && c.Exp.Err == nil && !overshootCandidate(c) && len(c.Exp.Loads) <= 600 {
 				break
 			}
 		}
